@@ -194,6 +194,8 @@ class LinComb:
     
     # self<other, so other-self>0, so other-self-1>=0
     def __lt__(self, other):
+        from pysnark.fixedpoint import LinCombFxp
+        if isinstance(other, LinCombFxp): return NotImplemented # other.__gt__ knows the scale
         return (other-self-1).check_positive()
     
     def assert_lt(self, other, err=None):
@@ -244,6 +246,8 @@ class LinComb:
         
     # self>other, so self-other>0, so self-other-1>=0
     def __gt__(self, other):
+        from pysnark.fixedpoint import LinCombFxp
+        if isinstance(other, LinCombFxp): return NotImplemented # other.__lt__ knows the scale
         return (self-other-1).check_positive()
 
     def assert_gt(self, other, err=None):
